@@ -57,4 +57,11 @@ structure SimdRegister (T Reg : Type) where
   write : Slice T → Nat → Reg → Exec (Slice T)
   write_dense : Slice T → Nat → DenseLane Reg → Exec (Slice T)
 
+/-- `trait TransposeMatrix<T>` (cfavml-gemm/src/transpose/mod.rs), `RM` = `Self::RegisterMatrix`.
+`load_matrix offset width data_ptr`, `write_matrix offset height matrix result_ptr`. -/
+structure TransposeMatrix (T RM : Type) where
+  load_matrix : Nat → Nat → Slice T → Nat → Exec RM
+  write_matrix : Nat → Nat → RM → Slice T → Nat → Exec (Slice T)
+  transpose_register_matrix : RM → Exec RM
+
 end Cfavml
